@@ -72,47 +72,16 @@ func checkTotality(w *World, r *Result) {
 	kinds := []string{"BKString", "BKInt", "BKFloat", "BKBool"}
 	for _, q := range []string{"analysis/sql.basicTypeName", "generator/sql.nameFromKind"} {
 		fi := w.MustFunc(q)
-		info := fi.Pkg.TypesInfo
-		covered := map[string]bool{}
-		hasDefaultPanic := false
-		var pos token.Pos
-		ast.Inspect(fi.Decl.Body, func(x ast.Node) bool {
-			sw, ok := x.(*ast.SwitchStmt)
-			if !ok || sw.Tag == nil {
-				return true
-			}
-			t := info.TypeOf(sw.Tag)
-			if t == nil || !strings.HasSuffix(t.String(), "analysis.BasicKind") {
-				return true
-			}
-			pos = sw.Pos()
-			for _, cl := range sw.Body.List {
-				cc := cl.(*ast.CaseClause)
-				if cc.List == nil {
-					if len(cc.Body) > 0 {
-						if p, d := isPanicStmt(info, cc.Body[len(cc.Body)-1]); p && d {
-							hasDefaultPanic = true
-						}
-					}
-				}
-				for _, e := range cc.List {
-					if sel, ok := e.(*ast.SelectorExpr); ok {
-						covered[sel.Sel.Name] = true
-					} else if id := identOf(e); id != nil {
-						covered[id.Name] = true
-					}
-				}
-			}
-			return false
-		})
+		d := constDispatchOf(w, fi, "analysis.BasicKind")
+		if !d.found {
+			Undecided("%s: no dispatch over BasicKind (switch, equality tests or table lookup)", q)
+		}
+		covered, hasDefaultPanic, pos := d.covered, d.refuses, d.pos
 		var missing []string
 		for _, k := range kinds {
 			if !covered[k] {
 				missing = append(missing, k)
 			}
-		}
-		if !pos.IsValid() {
-			Undecided("%s: no switch over BasicKind", q)
 		}
 		r.cond(len(missing) == 0 || hasDefaultPanic, "EXH-c", fi.Name, "switch over BasicKind", w.Pos(pos), "all four basic kinds are mapped (or refused by a panicking default)", "basic kinds "+strings.Join(missing, ",")+" have no SQL/JSON name and no refusing default")
 	}
@@ -438,8 +407,8 @@ func sprintfArgs(fi *FuncInfo, marker string) [][]string {
 	info := fi.Pkg.TypesInfo
 	var out [][]string
 	ast.Inspect(fi.Decl.Body, func(x ast.Node) bool {
-		call, ok := x.(*ast.CallExpr)
-		if !ok || !isSprintf(info, &call) {
+		call := sprintfView(info, x)
+		if call == nil {
 			return true
 		}
 		tv := info.Types[call.Args[0]]
@@ -533,8 +502,8 @@ func checkTableNaming(w *World, r *Result, rel string) int {
 		}
 		info := fi.Pkg.TypesInfo
 		ast.Inspect(fi.Decl.Body, func(x ast.Node) bool {
-			call, ok := x.(*ast.CallExpr)
-			if !ok || !isSprintf(info, &call) {
+			call := sprintfView(info, x)
+			if call == nil {
 				return true
 			}
 			tv := info.Types[call.Args[0]]
